@@ -117,6 +117,10 @@ type Program struct {
 	// into a destination that accepts this many bytes and then fails (a connection closed mid-response).
 	// What that execution reports is not judged; the observed one must be unaffected by it.
 	BrokenFirst int `json:"broken_first,omitempty"`
+	// Late: files that do not exist yet while the entry template is executed a first time (unjudged) and are
+	// put into the loader before the observed Execute: a template that exists now is found now, whatever an
+	// earlier lookup of its name came to.
+	Late []string `json:"late,omitempty"`
 }
 
 // ---- constructors used by generators ----
